@@ -1,7 +1,10 @@
 #!/usr/bin/env python3
 """Build corpus/c18_battery.txt: a sample of wire lines of EVERY op kind used by the other properties' generators
 (so that C18's cross-process determinism battery exercises the whole public surface, not only rendering).
-Each property runner is executed in quick mode with a recording Check that stops before the comparison."""
+Each property runner is executed in quick mode with a recording Check that stops before the comparison.
+C12 contributes its file-system-free operations only (as_dict / as_html_tags / source_path_map, from its generator
+`gen_urls`), and of those only lines that do not embed a path of THIS machine (package directories, the current
+working directory): the corpus is committed.  props/c18.py refuses to run if whole op kinds are missing here."""
 import importlib
 import os
 import random
@@ -39,12 +42,38 @@ class Rec(core.Check):
         raise Stop()
 
 
+def c12_pure_lines():
+    """C12's operations that do not touch the file system, machine-independent lines only"""
+    import wire
+    from props import c12
+    ck = Rec("C12", "quick", [])
+    by_op = {}
+    for line, _nt, _tag in c12.gen_urls(ck, "quick"):
+        t = wire.Toks(line)
+        op = t.next()
+        if op not in ("as_dict", "as_html_tags", "source_path_map") or len(line) > 6000:
+            continue
+        src = wire.p_depinfo(t)["source"]
+        if src is not None and src[0] == "subdir" and (src[1] is not None or not src[2].startswith("/V")):
+            continue        # package directory / relative directory: the absolute path in the line is this machine's
+        by_op.setdefault(op, []).append(line)
+    return by_op
+
+
 def main():
     rng = random.Random(18)
     real = core.Check
     out = {}
     for pid in [f"c{n:02d}" for n in range(1, 21)]:
-        if pid in ("c18", "c19", "c12"):
+        if pid in ("c18", "c19"):
+            continue
+        if pid == "c12":
+            out_c12 = c12_pure_lines()
+            for op, ls in out_c12.items():
+                rng.shuffle(ls)
+                out.setdefault(op, [])
+                out[op] += ls[:PER_OP * 2]
+            print(pid, {op: len(v) for op, v in out_c12.items()})
             continue
         path = os.path.join(HERE, "props", pid + ".py")
         if not os.path.exists(path):
